@@ -89,9 +89,23 @@ type Ctx struct {
 	Sched *simrt.Tape // scheduler decisions
 	Res   *RunResult
 	Trace bool
+	// OnlyClauses, when set, restricts what this registration reports (a scenario shared with
+	// another property is judged here for the clauses that belong to this property only).
+	OnlyClauses []string
 }
 
 func (c *Ctx) Violate(clause, key, format string, args ...interface{}) {
+	if len(c.OnlyClauses) > 0 && clause != "harness-panic" && clause != "panic" {
+		ok := false
+		for _, x := range c.OnlyClauses {
+			if x == clause {
+				ok = true
+			}
+		}
+		if !ok {
+			return
+		}
+	}
 	seq := uint64(0)
 	if simrt.S != nil {
 		seq = simrt.S.Seq
